@@ -172,6 +172,26 @@ Theorem C12_ds_caught_up_after_resubscribe : forall tys f h id,
 Proof. exact ResubDsProofs.caught_up_after_resubscribe_ds. Qed.
 Print Assumptions C12_ds_caught_up_after_resubscribe.
 
+(* exactly once, in log order, there too when nothing goes wrong (clean plans, no publishes from inside a replay, the
+   log fits one page of the paged replay) *)
+Theorem C12_ds_exactly_once_in_order : forall tys f h id,
+  clean_hist h ->
+  let s := ResubDs.run_ds (S (S f)) tys h init in
+  length (log s) <= ResubDs.batch ->
+  StronglySorted gt (for_id id (dels s)) /\
+  (forall d, In d (dels s) -> typed tys (log s) (d_id d) (d_pos d)) /\
+  (forall d, In d (dels s) -> d_pos d <= get_saved s (d_id d)).
+Proof. exact ResubDsProofs.exactly_once_in_order_ds. Qed.
+Print Assumptions C12_ds_exactly_once_in_order.
+
+Theorem C12_ds_exactly_once_complete : forall tys f h id,
+  clean_hist h ->
+  let s := ResubDs.run_ds (S (S f)) tys (h ++ [(ORestart, clean); (OSub id [], clean)]) init in
+  length (log s) <= ResubDs.batch ->
+  NoDup (for_id id (dels s)) /\ forall p, typed tys (log s) id p <-> In p (for_id id (dels s)).
+Proof. exact ResubDsProofs.exactly_once_complete_ds. Qed.
+Print Assumptions C12_ds_exactly_once_complete.
+
 (* REFUTED there (known finding F8d, reproduced on the real store by suite resubds): "if the process dies at any point
    no event is lost".  Three events; the process dies in SubscribeWithReplay right after the first one has been handled
    and its synthetic offset - which resumes from the end of the page - saved; after the restart a clean
